@@ -1,6 +1,7 @@
 import Mdns.Driver.C16
 import Mdns.Driver.Wire
 import Mdns.Driver.Sim
+import Mdns.Driver.SimAll
 import Mdns.Driver.C11
 import Mdns.Driver.C08
 import Mdns.Driver.C18
@@ -35,8 +36,8 @@ def dispatchExec (op : String) (ts impl : List String) : Option String :=
 def dispatchMon (op : String) (ts impl : List String) : Option String :=
   if op.startsWith "txt-" then Driver.C16.monitor op ts impl
   else if op == "decode" then Driver.Wire.monitor op ts impl
-  else if op == "sim" then Driver.Sim.monitorOp ts impl
-  else if op == "sim2" then Driver.Sim.monitorOp2 ts impl
+  else if op == "sim" then Driver.SimAll.monitorOp ts impl
+  else if op == "sim2" then Driver.SimAll.monitorOp2 ts impl
   else if Driver.C11.isOp op then Driver.C11.monitor op ts impl
   else if c08Ops.contains op then Driver.C08.monitor op ts impl
   else if c18Ops.contains op then Driver.C18.monitor op ts impl
